@@ -227,6 +227,66 @@ func gridCase(i int) *ProgCase {
 	return c
 }
 
+// ---------------------------------------------------------------- aliasing soup
+
+// Arrays and objects reachable through several names, changed through one name
+// and walked through another (print, json, for-in, sort, contains, -o). What
+// the contents must be is C09/C15's business (and partly a known finding);
+// here only the outcome class counts: no sequence may crash the interpreter.
+func genAliasCase(t *Tape) *ProgCase {
+	names := []string{"a", "b", "c", "o.arr", "o.inner.list", "$", "$.items", "q"}
+	vals := []string{"1", "\"s\"", "null", "[7]", "{k: 1}", "a", "b", "$", "[a, b]", "true", "2.5"}
+	pick := func(xs []string) string { return xs[t.Draw(len(xs))] }
+	var sb strings.Builder
+	sb.WriteString("function keep(x) { kept = x\n return x }\n")
+	sb.WriteString("BEGINFILE { q = $\n a = [1, 2, 3]\n o = {arr: [4, 5], inner: {list: []}}\n")
+	stmts := func(n int) {
+		for i := 0; i < n; i++ {
+			x, y := pick(names), pick(names)
+			switch t.Weighted(5, 4, 4, 3, 3, 2, 2, 2, 2, 2, 2, 2, 1, 1, 1) {
+			case 0:
+				sb.WriteString(x + " = " + y + "\n")
+			case 1:
+				sb.WriteString(x + ".push(" + pick(vals) + ")\n")
+			case 2:
+				sb.WriteString("r = " + x + ".pop()\n")
+			case 3:
+				sb.WriteString("r = " + x + ".popfirst()\n")
+			case 4:
+				sb.WriteString(fmt.Sprintf("%s[%d] = %s\n", x, t.Draw(6)-1, pick(vals)))
+			case 5:
+				sb.WriteString("print " + x + ", " + y + "\n")
+			case 6:
+				sb.WriteString("print json(" + x + ")\n")
+			case 7:
+				sb.WriteString("for (e, ei in " + x + ") { n++\n " + y + ".pop() }\n")
+			case 8:
+				sb.WriteString("print " + x + ".sort(), " + x + ".contains(" + pick(vals) + "), " + x + ".length()\n")
+			case 9:
+				sb.WriteString("printf(\"%v|%v\\n\", " + x + ", [" + y + ", " + x + "])\n")
+			case 10:
+				sb.WriteString(x + " = " + y + ".sort()\n")
+			case 11:
+				sb.WriteString(x + " = keep(" + y + ")\n")
+			case 12:
+				sb.WriteString(x + " = [" + y + ", " + y + "]\n")
+			case 13:
+				sb.WriteString("o." + pick([]string{"arr", "k", "inner"}) + " = " + y + "\n")
+			default:
+				sb.WriteString(fmt.Sprintf("print %s[%d], %s[-1]\n", x, t.Draw(5), y))
+			}
+		}
+	}
+	stmts(2 + t.Draw(6))
+	sb.WriteString("}\n{ ")
+	stmts(t.Draw(5))
+	sb.WriteString("}\nENDFILE { print\n")
+	stmts(t.Draw(4))
+	sb.WriteString("}\nEND { print a, b, c, o, q, kept }\n")
+	docs := []string{`[10, 20, 30]`, `{"items": [1, 2, 3], "k": 1}`, `[[1, 2], [3]]`, `[]`, `{"items": []}`, `[1] [2, 3]`}
+	return &ProgCase{Prog: sb.String(), Budget: 5000, RootJSON: true, Inputs: []ProgInput{{Name: "doc.json", Data: QBytes(pick(docs))}}}
+}
+
 // ---------------------------------------------------------------- string-literal escape grid
 
 // every byte after a backslash, at every distance from the end of the literal,
@@ -976,6 +1036,7 @@ func registerC01() {
 	}
 	p.Workloads = []*Workload{
 		progWorkload("signal-grid", map[string]int{"quick": gridCount(), "thorough": gridCount()}, func(i int, t *Tape, tier string) *ProgCase { return gridCase(t.Forced(i, gridCount())) }, false),
+		progWorkload("alias-soup", map[string]int{"quick": 60000, "thorough": 3000000}, func(i int, t *Tape, tier string) *ProgCase { return genAliasCase(t) }, false),
 		progWorkload("escape-grid", map[string]int{"quick": escapeGridCount(), "thorough": escapeGridCount()}, func(i int, t *Tape, tier string) *ProgCase { return escapeGridCase(t.Forced(i, escapeGridCount())) }, false),
 		progWorkload("printf-grid", map[string]int{"quick": printfGridCount(), "thorough": printfGridCount()}, func(i int, t *Tape, tier string) *ProgCase { return printfGridCase(t.Forced(i, printfGridCount())) }, false),
 		progWorkload("progtext", map[string]int{"quick": 150000, "thorough": 8000000}, func(i int, t *Tape, tier string) *ProgCase { return genProgCase(t, tier) }, false),
